@@ -81,3 +81,40 @@ def conf_plan(prop, fams, kinds):
 
 PLANS["C07"] = conf_plan("C07", [("allow", 2, 3), ("url", 1, 2), ("link", 2, 3)], "7,7,7,7,0,6")
 PLANS["C20"] = conf_plan("C20", [("link", 2, 3), ("allow", 2, 3), ("style", 1, 2), ("forced", 2, 3)], "0,1,3,4,6,7")
+
+
+def c04_plan(ctx, tier):
+    props = ["C04"]
+    q = tier == "quick"
+    ctx.mc_replay("ugc-hist", "MC_Loop.tla", "MC_Loop_hist.cfg", "fam_ugc.json", props, variants=2 if q else 4,
+                  consts={"MaxLen": 2 if q else 3}, timeout=3000)
+    ctx.mc_replay("ugc-cover", "MC_Loop.tla", "MC_Loop_cover.cfg", "fam_ugc.json", props, variants=2, workers=8, timeout=3000)
+    ctx.trace("shipped", props, sessions=20 if q else 100, calls=150 if q else 600, kinds="8,8,8,4,4,5,3,7,7,0",
+              extra=["-recipes", "ugc,ugc,strict"], check_attrs=True, timeout=3000)
+    return dict(rule=("TLC runs the loop machine with policy = the documented UGC vocabulary constant (ugc_vocabulary.json) and StrictPolicy over "
+                      "vocabulary and hostile tokens (I01, I02bare, I05, I07 as the converse, I20); every case is replayed into the real "
+                      "UGCPolicy()/StrictPolicy(); recorded sessions feed XSS cheat-sheet vectors, fragment soup, raw bytes and vocabulary "
+                      "documents; each build event binds the real UGCPolicy() snapshot to the constant; verdict = DOM of the real output in 11 "
+                      "container contexts judged against the documented vocabulary. non-trivial = output differs from input"),
+                exhaustive=False, assumptions=ASSUME_COMMON + ["ugc_vocabulary.json is the documented vocabulary, written down once and reviewed against README/doc comments (DESIGN section 11)"])
+
+
+PLANS["C04"] = c04_plan
+
+
+def c17_plan(ctx, tier):
+    q = tier == "quick"
+    ctx.mc_replay("policy", "MC_Policy.tla", "MC_Policy.cfg", "fam_policy.json", ["C17"], replaycmd="replaypolicy",
+                  consts={"MaxLen": 2 if q else 3, "AlgDepth": 1 if q else 2}, timeout=3400)
+    ctx.trace("policyfuzz", ["C17"], cmd=["policyfuzz", "-n", "150" if q else "3000"], timeout=3000)
+    return dict(rule=("TLC explores every history of <= MaxLen builder calls (36-call alphabet incl. case variants, toggles, helpers) on two policy "
+                      "instances from 4 constructor pairs and checks Commute, Idempotent, CaseBlind, SwitchLastWrite, RulesAccumulate, Independent; "
+                      "each history is replayed on the real API: snapshot of each instance = predicted policy, the untouched instance's snapshot "
+                      "never changes, an instance built next to another behaves like the same calls made alone, and all histories reaching the "
+                      "same abstract policy behave identically on 12 probe documents. policyfuzz: random recipes vs permuted / upper-cased / "
+                      "repeated / interleaved variants with the same rule set; interleaved constructions are trace-validated (build events with "
+                      "snapshots of both instances). non-trivial = distinct abstract policies reached"),
+                exhaustive=False, assumptions=ASSUME_COMMON + ["behavioural equality is judged on 12 probe documents over the union vocabulary"])
+
+
+PLANS["C17"] = c17_plan
